@@ -269,6 +269,37 @@ def model_case(ctx: Ctx, rnd, tree, n, subst, site, treekind, tipmode, seqs):
         ctx.violation(f"C01:model:{subst}:{site}:{treekind}:{tipmode}",
                       f"log-likelihood {got!r} differs from exact marginalisation {total!r} (rel {abs(got - total) / max(1, abs(total)):.3g}); tree "
                       f"{newick(tree, names)} seqs={seqs}", {"doc": doc, "expected": total, "got": got})
+        return
+    # history on a live time tree: new internal heights are assigned and the likelihood is evaluated again - it must be the
+    # value of the NEW tree (all internal nodes moved up by the same amount: every pendant branch grows, inner branches keep their length)
+    if treekind != "unrooted" and n <= 5:
+        import torch as _t
+        shift = 0.37
+        dic["heights"].tensor = _t.tensor([v + shift for v in internal])
+        try:
+            got2 = float(dic["like"]())
+        except Exception as e:
+            ctx.violation(f"C01:model:raises:{subst}:{site}:{treekind}:{tipmode}", f"re-evaluation after new heights raised {type(e).__name__}: {e}", {"doc": doc})
+            return
+        h2 = {i: h[i] + (shift if i >= n else 0.0) for i in range(2 * n - 1)}
+        bl2 = {c: (h2[parent[c]] - h2[c]) * rates[c] for c in range(2 * n - 2)}
+        mats2 = []
+        for rk in rates_k:
+            per_branch = {}
+            for c, b in bl2.items():
+                tkey = round(b * rk, 15)
+                if tkey not in cache:
+                    cache[tkey] = O.expm(Q, b * rk)
+                per_branch[c] = cache[tkey]
+            mats2.append(per_branch)
+        total2 = 0.0
+        for col in range(len(seqs[0])):
+            sets = [tipset(seqs[leaf][col], mode) for leaf in range(n)]
+            total2 += math.log(O.marginal(triples, root, n, sets, mats2, pi, probs_k, 4))
+        ctx.add("height_update_histories")
+        if not abs(got2 - total2) <= 1e-9 * max(1.0, abs(total2)):
+            ctx.violation(f"C01:model:after-height-update:{treekind}", f"after assigning new internal heights the log-likelihood is {got2!r}; exact marginalisation on the new "
+                          f"tree gives {total2!r} (the value before the update was {got!r})", {"doc": doc, "expected": total2, "got": got2})
 
 
 AA_ORDER = "ACDEFGHIKLMNPQRSTVWY"          # state order of AminoAcidDataType
